@@ -326,7 +326,7 @@ def t(poll, now, start, tt, last):
     return c.check(poll), c.start, c.timed(tt, last)
 ''', ['t(0, 5, None, 0, 0)', 't(5, 5, None, 3, 1)', 't(5, 7, 5, 3, 6)', 't(5, 11, 5, 10, 0)'], expect_inlined=True)
 
-# must NOT be inlined: return inside a loop, generator helper, recursion
+# return inside a loop: single-exit form with for-else
 case('''
 class N(object):
     def _find(self, xs):
@@ -338,7 +338,55 @@ class N(object):
         v = self._find(xs)
         return v
 def t(xs): return N().f(xs)
-''', ['t([0,1,2,3])', 't([])'], expect_inlined=False)
+''', ['t([0,1,2,3])', 't([])'], expect_inlined=True)
+
+# return from a nested loop, result discarded / assigned; try-finally and continue in the loop
+case('''
+LOG = []
+class N(object):
+    def _pump(self, src):
+        while True:
+            chunk = src.pop(0)
+            for item in chunk:
+                if item < 0:
+                    continue
+                return item
+            LOG.append('empty')
+    def _first(self, xs, bad):
+        for x in xs:
+            try:
+                if x in bad:
+                    continue
+                if x > 2:
+                    return x * 2
+            finally:
+                LOG.append(x)
+        LOG.append('none')
+    def f(self, src, xs, bad):
+        del LOG[:]
+        self._pump(src)
+        a = self._pump(src)
+        b = self._first(xs, bad)
+        return a, b, list(LOG), src
+def t(src, xs, bad): return N().f(src, xs, bad)
+''', ['t([[], [-1], [-2, 5], [], [7, 8], [9]], [1, 3, 4], [3])', 't([[1], [2]], [0, 1], [])', 't([[1]], [5], [])'],
+     expect_inlined=True)
+
+# must NOT be inlined: the loop has its own break (for-else would change meaning)
+case('''
+class N(object):
+    def _find(self, xs):
+        for x in xs:
+            if x > 5:
+                break
+            if x > 1:
+                return x
+        return None
+    def f(self, xs):
+        v = self._find(xs)
+        return v
+def t(xs): return N().f(xs)
+''', ['t([0,1,2,3])', 't([0, 9, 2])', 't([])'], expect_inlined=False)
 
 
 def run_module(tree, calls):
